@@ -147,12 +147,19 @@ class Inliner:
         for dname, fn in self.fns.items():
             if not fn.get("has_body") or dname in self.keep or dname not in self.raw:
                 continue
+            if fn.get("impl_trait") == "std::convert::From" and fn.get("name") == "from" and self._private_adt_input(fn) \
+                    and "::tests::" not in dname:
+                out.add(dname)       # `impl From<PrivateEnum> for Error`: a constructor helper in disguise
+                continue
             if fn.get("vis") == "Public":
                 continue
             if fn.get("impl_trait"):
                 # methods of a *private* trait of this crate that is never used as a trait object (an extension trait with a
                 # blanket impl, `x.or_timed_out(..)`) are helpers like any other: their calls are statically resolved
                 tr_ = fn["impl_trait"]
+                if tr_ == "std::convert::From" and fn.get("name") == "from" and self._private_adt_input(fn):
+                    out.add(dname)       # `impl From<PrivateEnum> for Error`: a constructor helper in disguise
+                    continue
                 if tr_ not in {t.get("def") for t in self.d.get("traits", [])}:
                     continue
                 if any(isinstance(t, dict) and t.get("k") == "dyn" and tr_.split("::")[-1] in (t.get("s") or "") for t in self.d["types"]):
@@ -177,6 +184,35 @@ class Inliner:
                         seen.add(x)
                         work.extend(graph.get(x, ()))
         return out
+
+    def _private_adt_input(self, fn):
+        """Is the (single) argument a crate ADT that occurs in no public function signature (a private type)?"""
+        if len(fn.get("inputs") or []) != 1:
+            return False
+        types = self.d["types"]
+
+        def adts_in(tid, seen):
+            t = types[tid] if isinstance(tid, int) and tid < len(types) else None
+            if not isinstance(t, dict) or tid in seen:
+                return set()
+            seen.add(tid)
+            out = {t["def"]} if t.get("k") == "adt" and t.get("def") else set()
+            for a in t.get("args") or []:
+                out |= adts_in(a, seen)
+            return out
+        t0 = types[fn["inputs"][0]]
+        while isinstance(t0, dict) and t0.get("k") in ("ref", "refmut") and t0.get("args"):
+            t0 = types[t0["args"][0]]
+        crate_adts = {a["def"] for a in self.d.get("adts", [])}
+        if not isinstance(t0, dict) or t0.get("k") != "adt" or t0.get("def") not in crate_adts:
+            return False
+        public = set()
+        for d2, f2 in self.fns.items():
+            if f2.get("vis") == "Public" and not (f2.get("impl_trait") == "std::convert::From"):
+                for tid in list(f2.get("inputs") or []) + [f2.get("output")]:
+                    public |= adts_in(tid, set())
+        # fields of public ADTs are not tracked: a type that appears in a public signature counts as public, nothing else
+        return t0["def"] not in public
 
     def _family(self, dname):
         out, work = [], [dname]
